@@ -134,7 +134,7 @@ var templates = []string{
 	"out " + strings.Repeat("a\\ ", 500) + "-> %s", "tout json (" + strings.Repeat("[", 300) + strings.Repeat("]", 300) + ") -> %s %s",
 	"alias vbar=vbaz\nalias vbaz=vbar\nvbar %s", "function vq3 { out $1 -> vq4 }\nfunction vq4 { <stdin> -> %s %s }\nvq3 %s",
 	"%s -> formap k v { out $k $v }", "for ( i=0; i<3; i++ ) { %s %s }", "v = 0\nwhile { $v < 3 } { v = $v + 1 ; %s %s }", "%s -> foreach --parallel %s v { out $v }",
-	"%s -> foreach --step %s v { out $v }", "%s -> foreach --jmap k { $k } { %s }", "test define vq2 %s\nout x -> <test_vq2> -> null", "%s -> <%s>", "<%s> -> %s",
+	"%s -> foreach --step %s v { out $v }", "%s -> foreach --jmap k { $k } { %s }", "test define vq2 %s\nout x -> <test_vq2> -> null", "%s -> <%s>",
 	"config get %s %s", "config eval %s %s { %s }", "!config %s %s", "runmode %s function\nout x", "%s -> tabulate --map --key-value %s", "%s -> tabulate --split-comma --joiner %s",
 	"%s -> select * from stdin where %s", "%s -> select count(*), %s group by 1", "%s -> jsplit %s -> [%s]", "datetime --in {now} --out %s", "datetime --in %s --value %s --out {unix}",
 	"%s -> list.case upper %s", "%s -> escape %s", "%s -> !escape", "%s -> gz -> !gz -> %s", "%s -> base64 -> !base64 %s", "%s -> !bz2", "%s -> !gz",
